@@ -9,6 +9,7 @@ import (
 	"math/big"
 	"math/rand"
 	"net"
+	"sync"
 
 	"github.com/coredhcp/coredhcp/plugins/allocators"
 
@@ -50,14 +51,24 @@ func (arithEngine) Decode(raw json.RawMessage) (any, error) {
 func (arithEngine) Run(ctx *fw.Ctx, cs any) {
 	c := cs.(*arithCase)
 	if c.One != nil {
-		arithOne(ctx, c.One)
+		arithOne(ctx, c.One, newArithState())
 		return
 	}
-	rng := rand.New(rand.NewSource(c.Seed))
-	for i := 0; i < c.N; i++ {
-		ev := genArith(rng)
-		arithOne(ctx, ev)
+	// four callers at once, each with its own stream of evaluations (and so its own prefix lengths) and its
+	// own buffers: the functions are pure, so every caller must get what it would get alone
+	var wg sync.WaitGroup
+	for g := 0; g < 4; g++ {
+		wg.Add(1)
+		go func(g int) {
+			defer wg.Done()
+			rng := rand.New(rand.NewSource(c.Seed + int64(g)*104729))
+			st := newArithState()
+			for i := 0; i < c.N/4; i++ {
+				arithOne(ctx, genArith(rng), st)
+			}
+		}(g)
 	}
+	wg.Wait()
 }
 
 var Two128 = new(big.Int).Lsh(big.NewInt(1), 128)
@@ -173,10 +184,15 @@ func genArith(rng *rand.Rand) *arithEval {
 // Two buffers the worker keeps for the whole run. Half of the evaluations pass their operands in these
 // (rewritten in place for every evaluation, as a caller with one scratch buffer does) instead of fresh
 // slices: results must depend on the values, not on which slice carried them or what it held before.
-var scratchBase, scratchX = make(net.IP, 16), make(net.IP, 16)
+type arithState struct {
+	scratchBase, scratchX net.IP
+	// prevSum is the previous non-trivial AddPrefixes result (kept by the "caller", as an allocator would)
+	prevSum net.IP
+}
 
-// prevSum is the previous non-trivial AddPrefixes result (kept by the "caller", as an allocator would)
-var prevSum net.IP
+func newArithState() *arithState {
+	return &arithState{scratchBase: make(net.IP, 16), scratchX: make(net.IP, 16)}
+}
 
 func ipIn(buf net.IP, v *big.Int) net.IP {
 	copy(buf, IPOf(v))
@@ -190,7 +206,7 @@ func IPOf(v *big.Int) net.IP {
 	return ip
 }
 
-func arithOne(ctx *fw.Ctx, ev *arithEval) {
+func arithOne(ctx *fw.Ctx, ev *arithEval, st *arithState) {
 	base, _ := new(big.Int).SetString(ev.Base, 16)
 	x, _ := new(big.Int).SetString(ev.X, 16)
 	p := ev.P
@@ -206,7 +222,7 @@ func arithOne(ctx *fw.Ctx, ev *arithEval) {
 	for order := 0; order < 2; order++ {
 		a, b := IPOf(x), IPOf(base)
 		if reuse {
-			a, b = ipIn(scratchX, x), ipIn(scratchBase, base)
+			a, b = ipIn(st.scratchX, x), ipIn(st.scratchBase, base)
 		}
 		if order == 1 {
 			a, b = b, a
@@ -238,7 +254,7 @@ func arithOne(ctx *fw.Ctx, ev *arithEval) {
 	wantSum, sumOvf := model.AddBlocks(base, ev.N, p)
 	baseArg := IPOf(base)
 	if reuse {
-		baseArg = ipIn(scratchBase, base)
+		baseArg = ipIn(st.scratchBase, base)
 		ctx.Count("arith.operands_in_reused_buffers", 1)
 	}
 	got, err := allocators.AddPrefixes(baseArg, ev.N, uint64(p))
@@ -248,11 +264,11 @@ func arithOne(ctx *fw.Ctx, ev *arithEval) {
 	case !sumOvf && err != nil:
 		report("addprefixes-spurious-error", "AddPrefixes returned error %v, want %s", err, IPOf(wantSum))
 	case !sumOvf:
-		if len(got) == 16 && len(prevSum) == 16 && ev.N != 0 {
+		if len(got) == 16 && len(st.prevSum) == 16 && ev.N != 0 {
 			// results are values of their own: a caller that appends to an earlier result (say, a length byte to
 			// build a key) must not thereby change a later one
 			snap := append(net.IP(nil), got...)
-			_ = append(prevSum, 0x40)
+			_ = append(st.prevSum, 0x40)
 			if !bytes.Equal(snap, got) {
 				report("result-shares-memory", "AddPrefixes returned %s; after one byte was appended to the previous result it reads %s: results share a backing array", snap, got)
 				copy(got, snap)
@@ -260,7 +276,7 @@ func arithOne(ctx *fw.Ctx, ev *arithEval) {
 			ctx.Count("arith.append_to_earlier_result", 1)
 		}
 		if ev.N != 0 {
-			prevSum = got
+			st.prevSum = got
 		}
 		if len(got) != 16 || new(big.Int).SetBytes(got).Cmp(wantSum) != 0 {
 			report("addprefixes-value", "AddPrefixes = %s, want %s", got, IPOf(wantSum))
